@@ -156,6 +156,7 @@ class SpecFn:
         self.reads = []
         self.recursive = False
         self.axioms_only = False
+        self.nonneg = False       # result is >= 0 (must be backed by a lemma `<name>_nonneg`)
 
 
 def ann_str(a):
@@ -253,6 +254,8 @@ class World:
                                                     else ast.literal_eval(kw.value))
                                     if kw.arg == "axioms_only":
                                         sf.axioms_only = ast.literal_eval(kw.value)
+                                    if kw.arg == "nonneg":
+                                        sf.nonneg = ast.literal_eval(kw.value)
                         self.specs[sf.name] = sf
                     elif "lemma" in decs:
                         self.lemmas[st.name] = Lemma(st, path)
@@ -632,6 +635,11 @@ class World:
             self.spec_ufs[name] = ufs
         res_terms = [uf(*all_terms) for uf in ufs]
         res = self.spec_value(res_terms, sf.ret)
+        if sf.nonneg and not getattr(fv, "proving_nonneg", None) == name:
+            if name + "_nonneg" not in self.lemmas:
+                raise VCError(f"spec {name} is declared nonneg but lemma {name}_nonneg is missing")
+            fv.assume(res_terms[0] >= 0)
+            fv.mark_nonneg(res_terms[0])
         fuel = ctx.fuel
         if fv.contract is not None and name in fv.contract.fuel:
             fuel = min(fuel, fv.contract.fuel[name])     # definitions the proof does not need stay folded
@@ -710,7 +718,7 @@ class World:
         else:
             raise VCError("comprehension target must be a name")
         now_before = ctx.heap.now
-        sub = Ctx(env, ctx.heap, spec=ctx.spec, old=ctx.old, result=ctx.result, fuel=ctx.fuel)
+        sub = Ctx(env, ctx.heap, spec=ctx.spec, old=ctx.old, result=ctx.result, fuel=ctx.fuel, entry=ctx.entry)
         val = self.eval_functional(e.elt, sub, fv)
         if not ctx.spec:
             # the element-wise facts were assumed for the skolem index only: drop the range assumption
@@ -765,9 +773,29 @@ class World:
         """Evaluate an element expression of a map comprehension: it must not fork or allocate."""
         trace_len = len(fv.trace)
         now = fv.heap.now
+        probe = next(fv.ctr)
         v = fv.eval(node, ctx)
         if len(fv.trace) != trace_len and any(alt for (_v, alt) in fv.trace[trace_len:]):
             raise VCError(f"comprehension element forks at {fv.where(node)}")
+        # the element must be a *function of the index*: no constant created while evaluating it may occur in it
+        if v.kind() not in ("tuple", "none") and z3.is_expr(v.t):
+            todo, seen = [v.t], set()
+            while todo:
+                x = todo.pop()
+                if x.get_id() in seen:
+                    continue
+                seen.add(x.get_id())
+                if z3.is_quantifier(x):
+                    todo.append(x.body())
+                    continue
+                if z3.is_app(x) and x.num_args() == 0 and x.decl().kind() == z3.Z3_OP_UNINTERPRETED:
+                    n = x.decl().name()
+                    if "!" in n:
+                        suffix = n.rsplit("!", 1)[1]
+                        if suffix.isdigit() and int(suffix) > probe and not n.startswith("ci!"):
+                            raise VCError(f"comprehension element uses a fresh value ({n}) at {fv.where(node)}: "
+                                          f"the callee needs a `returns` clause")
+                todo.extend(x.children())
         return v
 
     def is_range_call(self, it):
@@ -930,6 +958,8 @@ class World:
                     fv.reveal(fkey + "?", BoolS, obj.t, val.aux)
             fv.world.note_callee(fv.label, f"dataclass:{cname}")
             return obj
+        if all(b not in self.prog.classes for b in ci.bases):
+            return obj          # plain subclass of a library class (e.g. an exception type): nothing to initialise
         raise VCError(f"class {cname} has no __init__ and is no dataclass")
 
     def dataclass_default(self, d, fv):
@@ -1323,6 +1353,12 @@ class World:
         chars = e.args[1].value
         return mk_bool(z3.InRe(v.t, z3.Star(E.re_charset(list(chars)))))
 
+    def bi_is_str_value(self, e, ctx, fv):
+        v = fv.eval(e.args[0], ctx)
+        if v.kind() == "dyn":
+            return mk_bool(Dyn.is_dstr(v.t))
+        return mk_bool(v.kind() == "str")
+
     def bi_is_enum_value(self, e, ctx, fv):
         v = fv.eval(e.args[0], ctx)
         if v.kind() == "dyn":
@@ -1368,7 +1404,9 @@ class World:
             fv.mark_nonneg(q)
         env = dict(ctx.env)
         env[name] = mk_int(q)
-        sub = Ctx(env, ctx.heap, spec=True, old=ctx.old, result=ctx.result, fuel=ctx.fuel)
+        # recursive definitions stay folded under a quantifier: their ground instances are unfolded where the
+        # clause mentions them outside the quantifier (keeps quantified facts small and free of nested axioms)
+        sub = Ctx(env, ctx.heap, spec=True, old=ctx.old, result=ctx.result, fuel=0, entry=ctx.entry)
         saved = len(fv.pc)
         body = fv.eval_spec_bool(lam.body, sub)
         # definitional facts generated inside the body (spec unfoldings) mention q: generalise them
@@ -1398,7 +1436,7 @@ class World:
         cls = e.args[1].value if len(e.args) > 1 else None
         env = dict(ctx.env)
         env[name] = mk_ref(q, cls)
-        sub = Ctx(env, ctx.heap, spec=True, old=ctx.old, result=ctx.result, fuel=ctx.fuel)
+        sub = Ctx(env, ctx.heap, spec=True, old=ctx.old, result=ctx.result, fuel=ctx.fuel, entry=ctx.entry)
         body = fv.eval_spec_bool(lam.body, sub)
         return mk_bool(z3.ForAll([q], body))
 
